@@ -98,7 +98,9 @@ Theorem C13_undefined_local_rejected : forall s l pay dev,
   lookup_def (ss_env s) l = None -> denote_record s (RData l pay dev) = None.
 Proof. exact undefined_local_rejected. Qed.
 
-(* PARTIAL: nothing; the decoder-level statements hold inside the domain of C02_decode_denote (in_domain). *)
+(* PARTIAL: nothing; the decoder-level statements hold inside the domain of C02_decode_denote (in_domain: the stream
+   starts with file_id, is serialisable (stream_wf incl. canon_bt), is accepted by the reference semantics and has a
+   hosted file type; there is no time side condition). *)
 Example C13_example : nth 3 (set_nth 5 (Some (mk_defmsg 5 true 20 [] [])) (repeat None 16)) None = None
                       /\ nth 5 (set_nth 5 (Some (mk_defmsg 5 true 20 [] [])) (repeat None 16)) None = Some (mk_defmsg 5 true 20 [] []).
 Proof. split; reflexivity. Qed.
